@@ -8,6 +8,19 @@ BASE = "cd /repo && /venv/bin/python -m pytest -ra -q -p no:cacheprovider --time
 
 # id -> dict(level, text, note, technique, design_ref, engine)
 CLAIMS = {
+ "C19": dict(
+  level="model_checking",
+  text="Processor.tla is a device-side step machine over SUIT commands stating IndexDeclared, "
+       "DependenciesAreManifestComponents, FetchResolves, ParentDigestEqualsChildManifestDigest and "
+       "InstalledClassIdsAreConfiguredNames. Template_MC models the root template's index bookkeeping for every non-empty "
+       "image subset and checks it against those judges; TLC enumerates the complete configuration space (42 root + 3 top "
+       "configurations), each is rendered with the real Jinja template through ncs/build.py render_template, created by the "
+       "real tool with generated child envelopes, flattened by the verifier's manifest walker into Header/Cmd events and "
+       "judged by TLC.",
+  note="Configuration space enumerated completely (exhaustive: true); child envelopes sampled. Trusted: TLC, own manifest "
+       "walker, UUIDv5, hashlib. For {top only} the validate/invoke selections are empty (O5, vacuous).",
+  technique="TLA+ spec (Processor.tla, Template_MC.tla) + TLC model checking of the template bookkeeping + complete TLC-enumerated configuration space replayed through real rendering/create + TLC trace validation",
+  design_ref="DESIGN.md 4.13, 5 (C19)", engine="tlc"),
  "C05": dict(
   level="model_checking",
   text="Envelope.tla states the binding clauses (digest = hash under the named algorithm of exactly the named bytes; direct "
